@@ -173,6 +173,13 @@ fn run<N: ArrayLength>(sc: &str, f: usize, b: usize, skip: usize) {
         "map" => { let a = arr::<N>(); let m: GenericArray<E, N> = a.map(|x| { tick(); E::new(x.0 + 16) }); drop(m); }
         "fold" => { let a = arr::<N>(); let _ = a.fold(0usize, |acc, x| { tick(); acc + x.0 }); }
         "zip" => { let a = arr::<N>(); let b2: GenericArray<E, N> = GenericArray::generate(|i| E::new(i + 16)); let z: GenericArray<E, N> = a.zip(b2, |x, y| { tick(); E::new(x.0 + y.0 + 16) }); drop(z); }
+        // only one of the two element types needs drop (selects between the guarded and the unguarded branch)
+        "zip.left_plain" => { let a: GenericArray<u32, N> = GenericArray::generate(|i| i as u32); let b2 = arr::<N>(); let z: GenericArray<u32, N> = a.zip(b2, |x, y| { tick(); x + y.0 as u32 }); drop(z); }
+        "zip.right_plain" => { let a = arr::<N>(); let b2: GenericArray<u32, N> = GenericArray::generate(|i| i as u32); let z: GenericArray<u32, N> = a.zip(b2, |x, y| { tick(); x.0 as u32 + y }); drop(z); }
+        "zip.ref_owned" => { let a = arr::<N>(); let b2: GenericArray<E, N> = GenericArray::generate(|i| E::new(i + 16)); let z: GenericArray<u32, N> = (&a).zip(b2, |x, y| { tick(); (x.0 + y.0) as u32 }); drop(z); drop(a); }
+        "zip.owned_ref" => { let a = arr::<N>(); let b2: GenericArray<E, N> = GenericArray::generate(|i| E::new(i + 16)); let z: GenericArray<u32, N> = a.zip(&b2, |x, y| { tick(); (x.0 + y.0) as u32 }); drop(z); drop(b2); }
+        "map.ref" => { let a = arr::<N>(); let m: GenericArray<E, N> = (&a).map(|x| { tick(); E::new(x.0 + 16) }); drop(m); drop(a); }
+        "fold.ref" => { let a = arr::<N>(); let _ = (&a).fold(0usize, |acc, x| { tick(); acc + x.0 }); drop(a); }
         "clone" => { let a = arr::<N>(); let r = catch_unwind(AssertUnwindSafe(|| a.clone())); drop(a); match r { Ok(c) => drop(c), Err(e) => std::panic::resume_unwind(e) } }
         "try_from_iter" => { for cnt in [n, n + 1, n.saturating_sub(1)] { let r = GenericArray::<E, N>::try_from_iter(Src { left: cnt, next_id: 0 }); drop(r); } }
         "remove" => { if n > 0 { let a = arr::<N>(); let r = catch_unwind(AssertUnwindSafe(|| dispatch_remove::<N>(a, n + skip))); if let Err(e) = r { std::panic::resume_unwind(e) } } }
@@ -184,11 +191,204 @@ fn dispatch_remove<N: ArrayLength>(_a: GenericArray<E, N>, _idx: usize) {
     // Remove needs N: Sub<B1>; exercised for U3 only (see main)
 }
 
+// ---------------------------------------------------------------------------------------------
+// "semantic" findings (a result differs from the reference model): small native differential sweeps
+// ---------------------------------------------------------------------------------------------
+fn sem_iff<N: ArrayLength>() -> Option<String> {
+    let n = N::USIZE;
+    let mut raw = [0u32; 12];
+    for l in 0..=(n + 3) {
+        let want = l == n;
+        let r1 = GenericArray::<u32, N>::try_from_slice(&raw[..l]);
+        if r1.is_ok() != want { return Some(format!("try_from_slice::<U{n}> on a slice of {l} elements: Ok = {}", r1.is_ok())); }
+        if let Ok(a) = r1 { if a.as_ptr() != raw.as_ptr() { return Some(format!("try_from_slice::<U{n}>: result does not alias the source")); } }
+        let r2: Result<&GenericArray<u32, N>, _> = <&GenericArray<u32, N>>::try_from(&raw[..l]);
+        if r2.is_ok() != want { return Some(format!("TryFrom<&[T]>::<U{n}> on a slice of {l} elements: Ok = {}", r2.is_ok())); }
+        let p = raw.as_ptr();
+        let r3 = GenericArray::<u32, N>::try_from_mut_slice(&mut raw[..l]);
+        if r3.is_ok() != want { return Some(format!("try_from_mut_slice::<U{n}> on a slice of {l} elements: Ok = {}", r3.is_ok())); }
+        if let Ok(a) = r3 { if a.as_ptr() != p { return Some("try_from_mut_slice: result does not alias the source".into()); } }
+        let r4: Result<&mut GenericArray<u32, N>, _> = <&mut GenericArray<u32, N>>::try_from(&mut raw[..l]);
+        if r4.is_ok() != want { return Some(format!("TryFrom<&mut [T]>::<U{n}> on a slice of {l} elements: Ok = {}", r4.is_ok())); }
+        let q = catch_unwind(AssertUnwindSafe(|| { GenericArray::<u32, N>::from_slice(&raw[..l]).len() }));
+        if q.is_ok() != want { return Some(format!("from_slice::<U{n}> on a slice of {l} elements: returned = {}", q.is_ok())); }
+        let mut raw2 = raw;
+        let q = catch_unwind(AssertUnwindSafe(move || { GenericArray::<u32, N>::from_mut_slice(&mut raw2[..l]).len() }));
+        if q.is_ok() != want { return Some(format!("from_mut_slice::<U{n}> on a slice of {l} elements: returned = {}", q.is_ok())); }
+        // zero-sized elements
+        let mut z = [(); 12];
+        let q = catch_unwind(AssertUnwindSafe(|| { GenericArray::<(), N>::from_slice(&z[..l]).len() }));
+        if q.is_ok() != want { return Some(format!("from_slice::<(), U{n}> on a slice of {l} elements: returned = {}", q.is_ok())); }
+        let q = catch_unwind(AssertUnwindSafe(|| { GenericArray::<(), N>::from_mut_slice(&mut z[..l]).len() }));
+        if q.is_ok() != want { return Some(format!("from_mut_slice::<(), U{n}> on a slice of {l} elements: returned = {}", q.is_ok())); }
+        if GenericArray::<(), N>::try_from_slice(&z[..l]).is_ok() != want { return Some(format!("try_from_slice::<(), U{n}> on a slice of {l} elements")); }
+        if GenericArray::<(), N>::try_from_mut_slice(&mut z[..l]).is_ok() != want { return Some(format!("try_from_mut_slice::<(), U{n}> on a slice of {l} elements")); }
+    }
+    None
+}
+fn sem_view<N: ArrayLength>() -> Option<String> {
+    use std::borrow::{Borrow, BorrowMut};
+    let n = N::USIZE;
+    let mut a: GenericArray<u32, N> = GenericArray::generate(|i| i as u32);
+    let base = &a as *const _ as usize;
+    let views: [&[u32]; 4] = [a.as_slice(), &*a, a.as_ref(), a.borrow()];
+    for (k, v) in views.iter().enumerate() {
+        if v.len() != n || (n > 0 && v.as_ptr() as usize != base) { return Some(format!("shared view #{k} of GenericArray<u32, U{n}> is not (address of the array, {n} elements): len {}", v.len())); }
+    }
+    if (&a).into_iter().count() != n { return Some("by-reference iteration has the wrong length".into()); }
+    if a.as_mut_slice().len() != n || (&mut *a).len() != n || AsMut::<[u32]>::as_mut(&mut a).len() != n || BorrowMut::<[u32]>::borrow_mut(&mut a).len() != n || (&mut a).into_iter().count() != n {
+        return Some(format!("a mutable view of GenericArray<u32, U{n}> does not have {n} elements"));
+    }
+    None
+}
+fn sem_chunks<N: ArrayLength>() -> Option<String> {
+    let n = N::USIZE;
+    let mut raw: Vec<u32> = (0..(4 * n + 3) as u32).collect();
+    for l in 0..=(4 * n + 3) {
+        if n == 0 {
+            let r = catch_unwind(AssertUnwindSafe(|| { let (c, r) = GenericArray::<u32, N>::chunks_from_slice(&raw[..l]); (c.len(), r.len()) }));
+            match r { Ok((c, r)) => if l != 0 || c != 0 || r != 0 { return Some(format!("chunks_from_slice::<U0> on {l} elements returned ({c}, {r})")); }, Err(_) => if l == 0 { return Some("chunks_from_slice::<U0> panics on an empty slice".into()); } }
+            let mut raw2 = raw.clone();
+            let r = catch_unwind(AssertUnwindSafe(move || { let (c, r) = GenericArray::<u32, N>::chunks_from_slice_mut(&mut raw2[..l]); (c.len(), r.len()) }));
+            match r { Ok((c, r)) => if l != 0 || c != 0 || r != 0 { return Some(format!("chunks_from_slice_mut::<U0> on {l} elements returned ({c}, {r})")); }, Err(_) => if l == 0 { return Some("chunks_from_slice_mut::<U0> panics on an empty slice".into()); } }
+            continue;
+        }
+        let base = raw.as_ptr() as usize;
+        {
+            let (c, r) = GenericArray::<u32, N>::chunks_from_slice(&raw[..l]);
+            if c.len() != l / n || r.len() != l % n { return Some(format!("chunks_from_slice::<U{n}> on {l} elements: {} chunks + {} remainder", c.len(), r.len())); }
+            if (!c.is_empty() && c.as_ptr() as usize != base) || (!r.is_empty() && r.as_ptr() as usize != base + 4 * n * c.len()) { return Some(format!("chunks_from_slice::<U{n}> on {l} elements: parts are not adjacent views of the source")); }
+            let f = GenericArray::<u32, N>::slice_from_chunks(c);
+            if f.len() != c.len() * n { return Some(format!("slice_from_chunks::<U{n}>: {} elements from {} chunks", f.len(), c.len())); }
+        }
+        {
+            let (c, r) = GenericArray::<u32, N>::chunks_from_slice_mut(&mut raw[..l]);
+            if c.len() != l / n || r.len() != l % n { return Some(format!("chunks_from_slice_mut::<U{n}> on {l} elements: {} chunks + {} remainder", c.len(), r.len())); }
+            if (!c.is_empty() && c.as_ptr() as usize != base) || (!r.is_empty() && r.as_ptr() as usize != base + 4 * n * c.len()) { return Some(format!("chunks_from_slice_mut::<U{n}> on {l} elements: parts are not adjacent views of the source")); }
+            let cl = c.len();
+            let f = GenericArray::<u32, N>::slice_from_chunks_mut(c);
+            if f.len() != cl * n { return Some(format!("slice_from_chunks_mut::<U{n}>: {} elements from {cl} chunks", f.len())); }
+        }
+    }
+    None
+}
+fn sem_iter<N: ArrayLength>() -> Option<String> {
+    use std::collections::VecDeque;
+    let n = N::USIZE;
+    let quiet = std::panic::take_hook();
+    std::panic::set_hook(Box::new(|_| {}));
+    let mut out = None;
+    'o: for f in 0..=n { for b in 0..=(n - f) { for op in 0..9 { for arg in 0..=(n + 2) {
+        let r = catch_unwind(AssertUnwindSafe(|| {
+            let mut it = GenericArray::<u32, N>::generate(|i| i as u32).into_iter();
+            let mut m: VecDeque<u32> = (0..n as u32).collect();
+            for _ in 0..f { if it.next() != m.pop_front() { return Some("next".to_string()); } }
+            for _ in 0..b { if it.next_back() != m.pop_back() { return Some("next_back".to_string()); } }
+            let bad = match op {
+                0 => it.next() != m.pop_front(),
+                1 => it.next_back() != m.pop_back(),
+                2 => { let want = if arg < m.len() { m.drain(..arg); m.pop_front() } else { m.clear(); None }; it.nth(arg) != want }
+                3 => { let want = if arg < m.len() { let l = m.len(); m.truncate(l - arg); m.pop_back() } else { m.clear(); None }; it.nth_back(arg) != want }
+                4 => it.len() != m.len() || it.size_hint() != (m.len(), Some(m.len())),
+                5 => it.as_slice().iter().copied().ne(m.iter().copied()),
+                6 => { let c = it.clone(); c.ne(m.iter().copied()) }
+                7 => { let l = m.len(); let c = it.count(); return if c != l { Some(format!("count() = {c}, {l} remaining")) } else { None } }
+                _ => { let w = m.back().copied(); let l = it.last(); return if l != w { Some(format!("last() = {l:?}, want {w:?}")) } else { None } }
+            };
+            if bad { return Some(format!("result differs from VecDeque")); }
+            if it.len() != m.len() || it.as_slice().iter().copied().ne(m.iter().copied()) { return Some("post-state differs from VecDeque".to_string()); }
+            None
+        }));
+        let msg = match r { Ok(None) => continue, Ok(Some(m)) => m, Err(_) => "panicked".to_string() };
+        out = Some(format!("GenericArrayIter<u32, U{n}> after {f} next / {b} next_back, op #{op} (0 next,1 next_back,2 nth,3 nth_back,4 len,5 as_slice,6 clone,7 count,8 last) arg {arg}: {msg}"));
+        break 'o;
+    } } } }
+    std::panic::set_hook(quiet);
+    out
+}
+fn hex_model(bytes: &[u8], prec: Option<usize>, upper: bool) -> String {
+    let mut s = String::new();
+    for b in bytes { for nib in [b >> 4, b & 15] { s.push(char::from_digit(nib as u32, 16).map(|c| if upper { c.to_ascii_uppercase() } else { c }).unwrap()); } }
+    match prec { Some(p) if p < s.len() => s[..p].to_string(), _ => s }
+}
+type U1025 = generic_array::typenum::Sum<U1024, U1>;
+type U2049 = generic_array::typenum::Sum<U2048, U1>;
+type U3000 = generic_array::typenum::Sum<U2048, generic_array::typenum::Sum<U512, generic_array::typenum::Sum<U256, generic_array::typenum::Sum<U128, generic_array::typenum::Sum<U32, generic_array::typenum::Sum<U16, U8>>>>>>;
+fn sem_hex() -> Option<String> {
+    macro_rules! one { ($N:ty) => {{
+        let n = <$N>::USIZE;
+        let a: GenericArray<u8, $N> = GenericArray::generate(|i| (i as u8).wrapping_mul(37).wrapping_add(0xb5));
+        let mut ps: Vec<Option<usize>> = vec![None, Some(0), Some(1), Some(2), Some(3), Some(5), Some(7), Some(2 * n), Some(2 * n + 1), Some(2 * n + 2)];
+        if n > 0 { for d in 1..=8 { if 2 * n >= d { ps.push(Some(2 * n - d)); } } ps.push(Some(n)); ps.push(Some(n + 1)); ps.push(Some(n | 3)); }
+        for base in [2047usize, 2048, 2049, 4095, 4096, 4097, 1023, 1027, 6141] { if base <= 2 * n + 2 { ps.push(Some(base)); } }
+        for p in ps {
+            let (lo, up) = match p { None => (format!("{:x}", a), format!("{:X}", a)), Some(p) => (format!("{:.*x}", p, a), format!("{:.*X}", p, a)) };
+            if lo != hex_model(&a, p, false) { return Some(format!("{{:x}} of GenericArray<u8, U{n}> with precision {p:?}: got {} chars ({:?}...), want {}", lo.len(), &lo[..lo.len().min(12)], hex_model(&a, p, false).len())); }
+            if up != hex_model(&a, p, true) { return Some(format!("{{:X}} of GenericArray<u8, U{n}> with precision {p:?} differs from the bytes' digits")); }
+        }
+    }} }
+    one!(U0); one!(U1); one!(U2); one!(U3); one!(U7); one!(U15); one!(U16); one!(U17); one!(U31); one!(U32); one!(U33);
+    one!(U1023); one!(U1024); one!(U1025); one!(U2047); one!(U2048); one!(U2049); one!(U3000); one!(U4096);
+    None
+}
+fn semantic(sc: &str) -> Option<String> {
+    if sc.starts_with("hex") { return sem_hex(); }
+    macro_rules! all { ($f:ident) => { $f::<U0>().or_else(|| $f::<U1>()).or_else(|| $f::<U2>()).or_else(|| $f::<U3>()).or_else(|| $f::<U4>()).or_else(|| $f::<U5>()) } }
+    let quiet = std::panic::take_hook();
+    std::panic::set_hook(Box::new(|_| {}));
+    let r = if sc.starts_with("iff.") { all!(sem_iff) } else if sc.starts_with("view.") { all!(sem_view) } else if sc.starts_with("chunks.") || sc.starts_with("unchunk.") { all!(sem_chunks) } else if sc.starts_with("iter.") { all!(sem_iter) } else { None };
+    std::panic::set_hook(quiet);
+    r
+}
+
+/// remove / swap_remove with idx >= N: must panic and drop every element exactly once
+fn oob_sweep(which: &str) -> Option<String> {
+    macro_rules! one { ($N:ty) => {{
+        let n = <$N>::USIZE;
+        for idx in [n, n + 1, usize::MAX] {
+            reset(usize::MAX, usize::MAX);
+            let a: GenericArray<E, $N> = GenericArray::generate(E::new);
+            let swap = which.starts_with("swap");
+            let panicked = tracked(move || { if swap { let _ = a.swap_remove(idx); } else { let _ = a.remove(idx); } });
+            if !panicked { return Some(format!("{which}({idx}) on GenericArray<_, U{n}> returned instead of panicking")); }
+            if let Some((k, msg)) = verdict() { return Some(format!("{which}({idx}) on GenericArray<_, U{n}> panicked, then {k:?}: {msg}")); }
+        }
+    }} }
+    let quiet = std::panic::take_hook();
+    std::panic::set_hook(Box::new(|_| {}));
+    let r = (|| { one!(U1); one!(U2); one!(U3); one!(U4); None })();
+    std::panic::set_hook(quiet);
+    r
+}
+
 fn main() {
     let args: Vec<String> = std::env::args().collect();
+    if args[1].ends_with(".oob") {
+        match oob_sweep(&args[1]) {
+            Some(msg) => { println!("REPRODUCED scenario={} {msg}", args[1]); std::process::exit(1) }
+            None => { println!("NOT-REPRODUCED scenario={}: out-of-bounds remove panics and drops every element once for N <= 4", args[1]); return; }
+        }
+    }
+    if args[2] == "semantic" {
+        match semantic(&args[1]) {
+            Some(msg) => { println!("REPRODUCED scenario={} {msg}", args[1]); std::process::exit(1) }
+            None => { println!("NOT-REPRODUCED scenario={} kind=semantic: the native differential sweep (N <= 5) agrees with the reference model", args[1]); return; }
+        }
+    }
     let want = match args[2].as_str() { "double-drop" => Kind::DoubleDrop, "leak" => Kind::Leak, "block-leak" => Kind::BlockLeak, "zero-size-alloc" => Kind::ZeroSize, k => { eprintln!("unknown kind {k}"); std::process::exit(3) } };
+    let variants: Vec<String> = match args[1].as_str() {
+        "zip" => ["zip", "zip.left_plain", "zip.right_plain", "zip.ref_owned", "zip.owned_ref"].iter().map(|s| s.to_string()).collect(),
+        "map" => vec!["map".into(), "map.ref".into()],
+        "fold" => vec!["fold".into(), "fold.ref".into()],
+        s => vec![s.to_string()],
+    };
+    let mut r = None;
+    for v in variants {
+        let cfg = Cfg { scenario: v, want };
+        r = sweep::<U0>(&cfg).or_else(|| sweep::<U1>(&cfg)).or_else(|| sweep::<U2>(&cfg)).or_else(|| sweep::<U3>(&cfg)).or_else(|| sweep::<U4>(&cfg));
+        if r.is_some() { break; }
+    }
     let cfg = Cfg { scenario: args[1].clone(), want };
-    let r = sweep::<U0>(&cfg).or_else(|| sweep::<U1>(&cfg)).or_else(|| sweep::<U2>(&cfg)).or_else(|| sweep::<U3>(&cfg)).or_else(|| sweep::<U4>(&cfg));
     match r {
         Some(msg) => { println!("REPRODUCED {msg}"); std::process::exit(1) }
         None => { println!("NOT-REPRODUCED scenario={} kind={:?} over N<=4, every position, skip count and panic point", cfg.scenario, cfg.want); }
